@@ -1,0 +1,62 @@
+//! Verification hooks. Only compiled with `--cfg parol_verif`; re-exports crate-private items
+//! of the error recovery and thin wrappers around the crate-private token stream edits.
+use std::collections::BTreeSet;
+
+use crate::parser::recovery::Recovery;
+use crate::{LexerError, TerminalIndex, TokenStream, Trans};
+
+pub use crate::parser::recovery::EditOp;
+
+/// `Recovery::levenshtein_distance`
+pub fn levenshtein_distance(act: &[TerminalIndex], exp: &[TerminalIndex]) -> (usize, Vec<EditOp>) {
+    Recovery::levenshtein_distance(act, exp)
+}
+
+/// `Recovery::restore_terminal_strings`
+pub fn restore_terminal_strings(transitions: &[Trans], prod0: i32) -> BTreeSet<Vec<TerminalIndex>> {
+    Recovery::restore_terminal_strings(transitions, prod0)
+}
+
+/// `Recovery::minimal_token_difference`
+pub fn minimal_token_difference(
+    scanned: &[TerminalIndex],
+    possible: &mut BTreeSet<Vec<TerminalIndex>>,
+) -> Option<Vec<TerminalIndex>> {
+    Recovery::minimal_token_difference(scanned, possible)
+}
+
+/// The crate-private recovery edits of the token stream
+pub fn ts_enter_recovery_mode<F: Fn(char) -> Option<usize> + Clone>(ts: &mut TokenStream<'_, F>) {
+    ts.enter_recovery_mode()
+}
+/// see `TokenStream::token_types`
+pub fn ts_token_types<F: Fn(char) -> Option<usize> + Clone>(ts: &TokenStream<'_, F>) -> Vec<TerminalIndex> {
+    ts.token_types()
+}
+/// see `TokenStream::replace_token_type_at`
+pub fn ts_replace_token_type_at<F: Fn(char) -> Option<usize> + Clone>(
+    ts: &mut TokenStream<'_, F>,
+    index: usize,
+    token_type: TerminalIndex,
+) -> Result<(), LexerError> {
+    ts.replace_token_type_at(index, token_type)
+}
+/// see `TokenStream::insert_token_at`
+pub fn ts_insert_token_at<F: Fn(char) -> Option<usize> + Clone>(
+    ts: &mut TokenStream<'_, F>,
+    index: usize,
+    token_type: TerminalIndex,
+) -> Result<(), LexerError> {
+    ts.insert_token_at(index, token_type)
+}
+/// see `TokenStream::remove_token_at`
+pub fn ts_remove_token_at<F: Fn(char) -> Option<usize> + Clone>(
+    ts: &mut TokenStream<'_, F>,
+    index: usize,
+) -> Result<(), LexerError> {
+    ts.remove_token_at(index)
+}
+/// see `TokenStream::ensure_buffer`
+pub fn ts_ensure_buffer<F: Fn(char) -> Option<usize> + Clone>(ts: &mut TokenStream<'_, F>) -> Result<usize, LexerError> {
+    ts.ensure_buffer()
+}
